@@ -78,7 +78,7 @@ def outcome(ctx, b, env, depth=0):
         if a[0] == "is" and a[1][0] == "call" and a[1][1].endswith("Try::branch"):
             inner = a[1][2][0]
             if inner[0] == "call" and inner[1] in ctx.facts.bodies and [render(x) for x in inner[2]] == ["self", "update"] and depth < 2:
-                res = outcome(ctx, ctx.body(inner[1]), env, depth + 1)
+                res = outcome(ctx, ctx.ibody(inner[1]), env, depth + 1)
                 return ("Continue" if res == "ok" else "Break") in a[2]
             raise Unsupported(mir.render_atom(a))
         raise Unsupported(mir.render_atom(a))
@@ -119,7 +119,7 @@ def rule_outcome(rule, env):
 def r1(ctx):
     rules = json.load(open(os.path.join(HERE, "tables", "c06_binance.json")))
     for venue, (seq, _, _) in VENUES.items():
-        b = ctx.fbody(name="validate_sequence", self_adt=seq, trait="")
+        b = ctx.fibody(name="validate_sequence", self_adt=seq, trait="")
         for fn in ("validate_first_update", "validate_next_update", "is_first_update"):
             ctx.find(name=fn, self_adt=seq, trait="")
         n = 0
@@ -144,7 +144,7 @@ def r1(ctx):
         ctx.extra.setdefault("c06_assignments_evaluated", {})[venue] = n
         # the error reported on a break is InvalidSequence
         for fn in ("validate_first_update", "validate_next_update"):
-            fb = ctx.fbody(name=fn, self_adt=seq, trait="")
+            fb = ctx.fibody(name=fn, self_adt=seq, trait="")
             errs = [render(t) for g, t, bi in fb.expanded_cases(0) if render(t).startswith("Result::Err")]
             ctx.check("%s:%s" % (venue, fn), len(errs) == 1 and errs[0].startswith("Result::Err{0: DataError::InvalidSequence{"),
                       "a broken chain is reported as DataError::InvalidSequence", got=errs, key="error-kind")
@@ -152,7 +152,7 @@ def r1(ctx):
 
 def r2(ctx):
     for venue, (seq, _, _) in VENUES.items():
-        b = ctx.fbody(name="validate_sequence", self_adt=seq, trait="")
+        b = ctx.fibody(name="validate_sequence", self_adt=seq, trait="")
         acc = [g for g, t, bi in b.expanded_cases(0) if render(t) == "Result::Ok{0: Option::Some{0: update}}"]
         ctx.check("%s:validate_sequence" % venue, len(acc) == 1, "one accepting return", got=len(acc), key="one-accept")
         if len(acc) != 1:
@@ -191,7 +191,7 @@ def r2(ctx):
 def r3(ctx):
     T = "barter_integration::Transformer"
     for venue, (seq, tr, upd) in VENUES.items():
-        b = ctx.fbody(name="transform", self_adt=tr, trait=T)
+        b = ctx.fibody(name="transform", self_adt=tr, trait=T)
         tab = {}
         for g, term, bi in b.expanded_cases(0):
             r = render(term)
@@ -247,7 +247,7 @@ def r3(ctx):
 
 def r4(ctx):
     DE = "barter_data::error::DataError"
-    b = ctx.fbody(name="is_terminal", self_adt=DE, trait="")
+    b = ctx.fibody(name="is_terminal", self_adt=DE, trait="")
     tab = {}
     for g, term, bi in b.expanded_cases(0):
         for conj in g:
@@ -264,12 +264,12 @@ def r4(ctx):
     leaf = None
     for d in sorted(ctx.facts.bodies):
         if d.startswith(w + "::{closure#") and ctx.facts.bodies[d]["kind"] == "closure":
-            cb_ = ctx.body(d)
+            cb_ = ctx.ibody(d)
             if cb_.locals[0]["ty"].startswith("std::option::Option<std::result::Result<"):
                 leaf = d
     if leaf is None:
         raise Exception("map_while closure of with_termination_on_error not found")
-    lb = ctx.body(leaf)
+    lb = ctx.ibody(leaf)
     tab = {}
     for g, term, bi in lb.expanded_cases(0):
         for conj in g:
@@ -292,7 +292,7 @@ def r4(ctx):
     found = False
     names = []
     for d in ims:
-        bb = ctx.body(d)
+        bb = ctx.ibody(d)
         for bi, t, tm in bb.real_calls():
             if tm[1].endswith("ReconnectingStream::with_termination_on_error"):
                 cl = tm[2][1]
@@ -313,7 +313,7 @@ def r5(ctx):
         inits = [d for d in ctx.facts.bodies if d == init0 or d.startswith(init0 + "::{closure#")]
         seeds = []
         for d in inits:
-            bb = ctx.body(d)
+            bb = ctx.ibody(d)
             for bi, t, tm in bb.real_calls():
                 if tm[1] == seq + "::new" or (mir.short(tm[1]).endswith("Sequencer::new")):
                     seeds.append(render(tm[2][0]))
@@ -330,7 +330,7 @@ def r5(ctx):
         n += 1
         ctx.check("%s:transformer-init" % venue, ok, "the sequencer is seeded with the initial snapshot's sequence (lastUpdateId)",
                   got=seeds, key="seed")
-        nb = ctx.fbody(name="new", self_adt=seq, trait="")
+        nb = ctx.fibody(name="new", self_adt=seq, trait="")
         rt = nb.return_term()
         f = {k: render(v) for k, v in zip(rt[2], rt[3])} if rt[0] == "agg" else {}
         ctx.check("%s:Sequencer::new" % venue, f.get("last_update_id") == "last_update_id" and f.get("updates_processed") == "0",
@@ -340,7 +340,7 @@ def r5(ctx):
         ok = False
         got = None
         for d in conv:
-            cb = ctx.body(d)
+            cb = ctx.ibody(d)
             got = render(cb.return_term())
             ok = ("OrderBookEvent::Update{0: OrderBook::new($.last_update_id, Option::None{}, $.bids, $.asks)}".replace("$", "_1.2") in got
                   or "OrderBook::new(" in got and ".last_update_id" in got and ".bids" in got and ".asks" in got) and "instrument: " in got
